@@ -332,3 +332,72 @@ func constBool(v ssa.Value) (val, ok bool) {
 	}
 	return constant.BoolVal(c.Value), true
 }
+
+// lenTest recognises an If on the emptiness of v (len(v) compared with 0/1, or v compared with nil)
+// and returns the successor index (0 = true edge, 1 = false edge) on which v is EMPTY.
+func lenTest(iff *ssa.If, isV func(ssa.Value) bool) (emptySucc int, ok bool) {
+	cond := iff.Cond
+	neg := false
+	for {
+		u, isU := cond.(*ssa.UnOp)
+		if !isU || u.Op != token.NOT {
+			break
+		}
+		cond = u.X
+		neg = !neg
+	}
+	bo, isB := cond.(*ssa.BinOp)
+	if !isB {
+		return 0, false
+	}
+	isLen := func(x ssa.Value) bool {
+		call, ok := x.(*ssa.Call)
+		if !ok {
+			return false
+		}
+		b, ok := call.Call.Value.(*ssa.Builtin)
+		return ok && b.Name() == "len" && len(call.Call.Args) == 1 && isV(call.Call.Args[0])
+	}
+	x, y, op := bo.X, bo.Y, bo.Op
+	if isLen(y) || (isV(y) && isNilConst(x)) { // normalise: subject on the left
+		x, y = y, x
+		switch op {
+		case token.LSS:
+			op = token.GTR
+		case token.GTR:
+			op = token.LSS
+		case token.LEQ:
+			op = token.GEQ
+		case token.GEQ:
+			op = token.LEQ
+		}
+	}
+	res := -1
+	switch {
+	case isLen(x):
+		k, isK := constInt(y)
+		if !isK {
+			return 0, false
+		}
+		switch {
+		case op == token.GTR && k == 0, op == token.GEQ && k == 1, op == token.NEQ && k == 0:
+			res = 1 // true edge = non-empty, so empty on the false edge
+		case op == token.EQL && k == 0, op == token.LSS && k == 1, op == token.LEQ && k == 0:
+			res = 0
+		}
+	case isV(x) && isNilConst(y):
+		switch op {
+		case token.EQL:
+			res = 0
+		case token.NEQ:
+			res = 1
+		}
+	}
+	if res < 0 {
+		return 0, false
+	}
+	if neg {
+		res = 1 - res
+	}
+	return res, true
+}
